@@ -7,8 +7,11 @@ import (
 	"sync/atomic"
 
 	"github.com/lugu/qiloop/bus"
+	"github.com/lugu/qiloop/bus/directory"
 	"github.com/lugu/qiloop/bus/net"
 	"github.com/lugu/qiloop/bus/services"
+	"github.com/lugu/qiloop/bus/util"
+	"github.com/lugu/qiloop/type/object"
 	"github.com/lugu/qiloop/internal/zzverif/sym"
 )
 
@@ -191,4 +194,85 @@ func C19SharedCalls() {
 		sym.Assert(len(r.payload) == 1 && r.payload[0] == byte(0xA0+i), "shared-calls/answer-of-another-call")
 	}
 	sym.Reach("shared-calls-done")
+}
+
+// zzFullSession: a real directory server and a real session connected to it (NewAuthSession: meta
+// object fetch, service list, signal subscriptions). Under the engine the listener and the dial
+// function are in-memory (sym.Replace); natively the same code runs over a real unix socket.
+func zzFullSession() (bus.Server, *Session, *int32) {
+	l := newZZListener()
+	dials := new(int32)
+	sym.Replace("github.com/lugu/qiloop/bus/net.Listen", func(addr string) (net.Listener, error) { return l, nil })
+	sym.Replace("github.com/lugu/qiloop/bus.SelectEndPoint", func(addrs []string, user, token string) (string, bus.Channel, error) {
+		if len(addrs) == 0 {
+			return "", nil, errors.New("empty address list")
+		}
+		atomic.AddInt32(dials, 1)
+		cs, ss := zzPipe()
+		l.conns <- ss
+		sym.Yield() // connecting takes time: other requests run meanwhile
+		ch := bus.NewChannel(net.NewEndPoint(cs), bus.ClientCap(user, token))
+		if err := ch.Authenticate(); err != nil {
+			return "", nil, err
+		}
+		return addrs[0], ch, nil
+	})
+	addr := util.NewUnixAddr()
+	srv, err := directory.NewServer(addr, nil)
+	sym.Assert(err == nil, "directory-server-started")
+	if err != nil {
+		return nil, nil, dials
+	}
+	sess, err := NewAuthSession(addr, "", "")
+	sym.Assert(err == nil, "session-established")
+	if err != nil {
+		return srv, nil, dials
+	}
+	return srv, sess.(*Session), dials
+}
+
+// C19Full: goroutines concurrently ask one real session for proxies (by name) and for objects (by
+// reference) of the directory service: every request succeeds with a proxy that works (a call through
+// it is answered), the process does not crash (no unsynchronised map access), one connection is held.
+func C19Full() {
+	sym.Schedules(false) // the set-up (server start, session establishment) runs under the default schedule
+	srv, s, _ := zzFullSession()
+	if s == nil {
+		return
+	}
+	sym.Schedules(true)
+	const n = 2
+	proxies := make([]bus.Proxy, n)
+	errs := make([]error, n)
+	done := make(chan bool, n)
+	for i := 0; i < n; i++ {
+		byRef := sym.Choose("request-kind", 2) == 1
+		go func(i int) {
+			if byRef {
+				ref := object.ObjectReference{ServiceID: 1, ObjectID: 1, MetaObject: object.MetaObject{}}
+				proxies[i], errs[i] = s.Object(ref)
+			} else {
+				proxies[i], errs[i] = s.Proxy("ServiceDirectory", 1)
+			}
+			done <- true
+		}(i)
+	}
+	for i := 0; i < n; i++ {
+		<-done
+	}
+	sym.Schedules(false)
+	for i := 0; i < n; i++ {
+		sym.Assert(errs[i] == nil, "full/request-failed")
+		if errs[i] == nil {
+			// a working proxy: the metaObject action of the directory answers through it
+			resp, err := proxies[i].CallID(2, []byte{1, 0, 0, 0})
+			sym.Assert(err == nil && len(resp) > 0, "full/proxy-does-not-work")
+		}
+	}
+	s.pollMutex.RLock()
+	sym.Assert(len(s.poll) == 1, "full/connections-held")
+	s.pollMutex.RUnlock()
+	s.Terminate()
+	srv.Terminate()
+	sym.Reach("full-done")
 }
